@@ -21,8 +21,10 @@ Number, strict : [ASCII spaces] ['-' unless non_negative] (D+ | D+.D+ | .D+ ; D+
 Number, liberal additionally: any str.isspace() character as white space, trailing-dot numbers "12."
                  (not when int_only), a '+' sign, non-ASCII decimal digits, a bare number although
                  units were declared (statement: "optionally followed by"; tests: rejected).
-Categorical, strict : exactly one exclusive option, or >=1 distinct additive options joined by single '+'.
-Categorical, liberal additionally: repeated additive options ("A+A"), white space around the value.
+Categorical, strict : exactly one exclusive option, or >=1 additive options joined by single '+' (a list: the
+                 statement and the code comment "one or more additive options joined by single '+'" put no bound on its
+                 length and do not ask for distinct options, so "A+A" and "A+B+A" are members).
+Categorical, liberal additionally: white space around the value.
 Everything else (empty, "AB", "A++B", "+A", "A+", exclusive+additive, exponent forms, second unit,
 undeclared unit, doubled sign, ...) must be rejected.
 """
@@ -48,7 +50,7 @@ ASSUMPTIONS = [
     "at least one of exclusive_options/additive_options is a non-empty list (the other may be None or [])",
     "patterns are applied the way RegexNamedArgumentParser.parse does: re.search(pattern, arg)",
     "spellings the statement is silent on are classified, not judged: trailing-dot numbers, '+' sign, non-ASCII digits, "
-    "non-space white space, a bare number when units are declared, repeated additive options, white space around a categorical value",
+    "non-space white space, a bare number when units are declared, white space around a categorical value",
     "exponent forms (1e3), inf/nan, thousands separators and decimal commas are not 'decimal numbers' and must be rejected",
 ]
 TIERS = {
@@ -192,8 +194,7 @@ def categorical_parses(cand: str, excl, add):
         out.append((outer, core))
     parts = core.split("+")
     if add and all(p in add for p in parts):
-        lv = outer if len(set(parts)) == len(parts) else "liberal"
-        out.append((lv, core))
+        out.append((outer, core))
     return out
 
 
@@ -324,7 +325,12 @@ def member_class(case, parse) -> str:
         core = case["cand"].strip()
         if core in (case["excl"] or []):
             return "exclusive"
-        return "additive-single" if "+" not in core else "additive-list"
+        if "+" not in core:
+            return "additive-single"
+        parts = core.split("+")
+        if len(parts) > len(case["add"] or []):
+            return "additive-list-longer-than-option-count"
+        return "additive-list" if len(set(parts)) == len(parts) else "additive-list-with-repeat"
     _, num, unit = parse
     if num is None:
         return "optional-empty"
@@ -468,7 +474,7 @@ NUMBER_RECIPES = ["member", "member", "member", "bare", "undeclared-unit", "seco
                   "trailing-newline", "space-inside", "empty", "ws-only", "unit-only", "comma", "word", "unit-case",
                   "unit-prefix", "sign-space", "random"]
 CAT_RECIPES = ["member", "member", "member", "missing-plus", "doubled-plus", "leading-plus", "trailing-plus", "empty",
-               "exclusive-combined", "exclusive-concatenated", "repeated", "space-around", "space-inside",
+               "exclusive-combined", "exclusive-concatenated", "repeated", "long-list", "space-around", "space-inside",
                "trailing-newline", "unknown-option", "case-changed", "prefix", "lone-plus", "random"]
 
 
@@ -608,6 +614,9 @@ def categorical_cases(draw):
             cand = e + draw(st.sampled_from([e, base_add or e]))
         elif recipe == "repeated":
             cand = (a_list[0] + "+" + "+".join(a_list)) if a_list else (e_pick + "+" + e_pick)
+        elif recipe == "long-list":
+            # a list of additive options of any length, options drawn freely (longer than the number of options too)
+            cand = "+".join(draw(st.lists(st.sampled_from(add), min_size=1, max_size=9))) if add else (e_pick + "+" + e_pick + "+" + e_pick)
         elif recipe == "space-around":
             w = draw(st.sampled_from([" ", "  ", "\t", " "]))
             cand = draw(st.sampled_from([w + member, member + w, w + member + w]))
